@@ -33,6 +33,13 @@ var c08Atoms = append(append([]ora.Atom{}, ora.StdAtoms...),
 	ora.Atom{Name: "IMGjs", Gen: func(t *ora.Tok) string {
 		return "<a href=\"javascript:enlarge()\"><img src=\"http://example.com/img/" + t.U() + ".jpg\" width=\"400\" height=\"300\"></a>"
 	}},
+	// media alone (apart from pretty-printing white space) in a wrapper whose class says "author"
+	ora.Atom{Name: "IMGauth", Gen: func(t *ora.Tok) string {
+		return "<div class=\"author-avatar\">\n  <img src=\"http://example.com/img/" + t.U() + ".jpg\" width=\"400\" height=\"300\">\n</div>"
+	}},
+	ora.Atom{Name: "VIDrel", Gen: func(t *ora.Tok) string {
+		return "<a rel=\"author\" href=\"http://example.com/a\">\n  <video src=\"http://example.com/v/" + t.U() + ".mp4\" width=\"400\" height=\"300\"></video>\n</a>"
+	}},
 	ora.Atom{Name: "YTobj", Gen: func(t *ora.Tok) string {
 		return "<object type=\"application/x-shockwave-flash\" data=\"http://www.youtube.com/v/" + t.U() + "\" width=\"400\" height=\"300\"></object>"
 	}},
@@ -46,7 +53,7 @@ var c08Atoms = append(append([]ora.Atom{}, ora.StdAtoms...),
 
 var (
 	c08Main   = []string{"Pc", "Ps", "Pb", "IMG", "FIG", "VID", "YT", "TBLd", "UL3"}
-	c08Nested = []string{"Pc", "Pb", "IMGd1", "IMGd3", "FIGd2", "VIDd1", "IMGsm", "IMGnd", "H", "TXTT", "TXTI", "IMGjs", "YTobj"}
+	c08Nested = []string{"Pc", "Pb", "IMGd1", "IMGd3", "FIGd2", "VIDd1", "IMGsm", "IMGnd", "H", "TXTT", "TXTI", "IMGjs", "YTobj", "IMGauth", "VIDrel"}
 )
 
 func c08Enumerate(tier string, emit func(*eng.Case)) {
@@ -202,7 +209,7 @@ func init() {
 	eng.Register(&eng.Prop{
 		ID:        "C08",
 		DesignRef: "§5 C08",
-		Rule: "all sequences of body children of length <= 5 (quick) / <= 7 (thorough) over {Pc,Ps,Pb,IMG,FIG,VID,YT,TBLd,UL3}, and of length <= 4 / <= 5 over the nested/odd-media alphabet {Pc,Pb,IMGd1,IMGd3,FIGd2,VIDd1,IMGsm,IMGnd,H, bare text followed by a table / an image inside one div, an image inside a javascript: anchor, a YouTube <object>}. " +
+		Rule: "all sequences of body children of length <= 5 (quick) / <= 7 (thorough) over {Pc,Ps,Pb,IMG,FIG,VID,YT,TBLd,UL3}, and of length <= 4 / <= 5 over the nested/odd-media alphabet {Pc,Pb,IMGd1,IMGd3,FIGd2,VIDd1,IMGsm,IMGnd,H, bare text followed by a table / an image inside one div, an image inside a javascript: anchor, a YouTube <object>, an image alone in a pretty-printed author-avatar wrapper, a video alone in a rel=author anchor}. " +
 			"Oracle: for each medium m of the parsed input with nearest preceding visible word p(m) outside media: kept(p) => kept(m); the media kept without kept(p) are at most one and are images/figures. Non-trivial = >= 1 medium kept and >= 1 dropped.",
 		Enumerate: c08Enumerate,
 		Check:     c08Check,
